@@ -142,7 +142,8 @@ class CountsFactory(Contract):
     k-th valid element of the table dimension (MR table: its 'selected' plane)."""
 
     name = MOD + ":_BaseCubeCounts.factory"
-    props = ("C01", "C06")
+    # the class chosen here decides every count, base, margin and pruning mask of the slice
+    props = ("C01", "C02", "C03", "C06", "C09", "C10", "C16")
 
     def configs(self):
         return [dict(nd=2), dict(nd=3, tmr=False), dict(nd=3, tmr=True)]
@@ -325,7 +326,7 @@ class CubeMeasuresWiring(Contract):
     counts take precedence and switch on NaN differences), squared counts optional."""
 
     name = MOD + ":CubeMeasures.<wiring>"
-    props = ("C01", "C02", "C04", "C09")
+    props = ("C01", "C02", "C03", "C04", "C09", "C10", "C11", "C12", "C13", "C16")
 
     def run(self, B, cfg):
         DT = B.enum("enums:DIMENSION_TYPE")
